@@ -188,7 +188,18 @@ func (c c20Cfg) describe() []string {
 // build creates the Markdown instance with the probes registered in the listed order through the listed channels.
 func (c c20Cfg) build(log *[]string) goldmark.Markdown {
 	var opts []goldmark.Option
+	// a probe name that occurs twice is ONE instance registered twice (with two priorities)
+	inst := map[string]any{}
+	get := func(name string, mk func() any) any {
+		if v, ok := inst[name]; ok {
+			return v
+		}
+		v := mk()
+		inst[name] = v
+		return v
+	}
 	for _, k := range c.Comps {
+		k := k
 		var po parser.Option
 		var ro renderer.Option
 		switch c.Group {
@@ -197,13 +208,13 @@ func (c c20Cfg) build(log *[]string) goldmark.Markdown {
 			if strings.HasPrefix(k.Name, "BT") {
 				trig = []byte{'$'}
 			}
-			po = parser.WithBlockParsers(util.Prioritized(&c20BP{name: k.Name, trig: trig, accept: k.Script == 1, log: log}, k.Prio))
+			po = parser.WithBlockParsers(util.Prioritized(get(k.Name, func() any { return &c20BP{name: k.Name, trig: trig, accept: k.Script == 1, log: log} }), k.Prio))
 		case "inline":
-			po = parser.WithInlineParsers(util.Prioritized(&c20IP{name: k.Name, accept: k.Script == 1, wander: k.Script == 2, log: log}, k.Prio))
+			po = parser.WithInlineParsers(util.Prioritized(get(k.Name, func() any { return &c20IP{name: k.Name, accept: k.Script == 1, wander: k.Script == 2, log: log} }), k.Prio))
 		case "paragraph":
-			po = parser.WithParagraphTransformers(util.Prioritized(&c20PT{name: k.Name, log: log}, k.Prio))
+			po = parser.WithParagraphTransformers(util.Prioritized(get(k.Name, func() any { return &c20PT{name: k.Name, log: log} }), k.Prio))
 		case "ast":
-			po = parser.WithASTTransformers(util.Prioritized(&c20AT{name: k.Name, log: log}, k.Prio))
+			po = parser.WithASTTransformers(util.Prioritized(get(k.Name, func() any { return &c20AT{name: k.Name, log: log} }), k.Prio))
 		case "render":
 			ro = renderer.WithNodeRenderers(util.Prioritized(&c20NR{name: k.Name, kinds: k.Script}, k.Prio))
 		}
@@ -597,11 +608,41 @@ func runC20(r *core.Run) {
 		}
 		runs = append(runs, run{ge, extreme, "-extreme-priorities"})
 	}
+	// the same instance registered twice, with two priorities: each registration counts
+	for _, g := range groups {
+		gd := g
+		switch g.name {
+		case "block":
+			gd.names = []string{"BT1", "BF1", "BT1", "BF1"}
+		case "inline":
+			gd.names = []string{"IT1", "IT2", "IT1"}
+		case "paragraph":
+			gd.names = []string{"PT1", "PT2", "PT1"}
+		case "ast":
+			gd.names = []string{"AT1", "AT2", "AT1"}
+		default:
+			continue
+		}
+		runs = append(runs, run{gd, pool, "-same-instance-twice"})
+	}
 	for _, rn := range runs {
 		g, pool := rn.g, rn.pool
 		s := r.Sub("priority-"+g.name+rn.suffix, fmt.Sprintf("every subset of the probes %v × every injective priority assignment from %v × every registration order × channel pattern {all via WithParserOptions/WithRendererOptions, all via an Extender calling AddOptions, alternating} × every script vector × documents %q: %s", g.names, pool, g.docs, g.rule))
 		var cfgs []c20Cfg
-		c20Enum(g.name, g.names, pool, g.scriptN, g.name == "render", func(c c20Cfg) { cfgs = append(cfgs, c) })
+		c20Enum(g.name, g.names, pool, g.scriptN, g.name == "render", func(c c20Cfg) {
+			if rn.suffix == "-same-instance-twice" {
+				// one instance has one script: the one of its first registration
+				first := map[string]int{}
+				for i, k := range c.Comps {
+					if sc, ok := first[k.Name]; ok {
+						c.Comps[i].Script = sc
+					} else {
+						first[k.Name] = k.Script
+					}
+				}
+			}
+			cfgs = append(cfgs, c)
+		})
 		s.Bound = fmt.Sprintf("probes≤%d priorities=%v configurations=%d documents=%d", len(g.names), pool, len(cfgs), len(g.docs))
 		complete := core.ForEachIndex(len(cfgs), core.Workers(), func(w int) func(int) {
 			return func(i int) {
